@@ -3,7 +3,8 @@
     machine_kern            pair walk with the IGNORE_MARKS skipping iterator, kern1/kern2 split, cross-stream
     apply_simple_kerning    `glyphs_kerning(...).unwrap_or(0)`: ttf-parser format 0 = binary search on
                             `left << 16 | right` (ttf-parser parser.rs::LazyArray16::binary_search_by)
-    hb_ot_layout_kern       loop over the subtables with the reverse / `continue` bracket (defect D3)
+    hb_ot_layout_kern       loop over the subtables with the reverse bracket (D3 fixed: `requested_kerning` is
+                            tested before the first reverse)
   State-machine subtables (format 1) are an abstract parameter of the driver (`sm`); the correspondence
   uses format-1 subtables that cannot move glyphs.  Glyph flags (`unsafe_to_break/concat`) are not part
   of this model (they belong to C03/C04).
@@ -186,17 +187,19 @@ def kernStep (requested : Bool) (kernMask : Nat) (d : Dir) (sm : KSub â†’ KBuf â
         (true, { b with pos := b.pos.map (fun q =>
             { q with atype := ATTACH_CURSIVE, chain := if d.isForward then -1 else 1 }) })
       else (seen, b)
-    let b := if reverse then b.reverse else b
-    if s.stateMachine then
-      let b := sm s b
-      .ok (seen, if reverse then b.reverse else b)
-    else if !requested then .ok (seen, b)            -- `continue` â€” skips the second reverse (D3)
+    -- tested BEFORE the first reverse (the `continue` used to sit between the two reverses: defect D3, fixed)
+    if !s.stateMachine && !requested then .ok (seen, b)
     else
-      match machineKern b.infos b.pos b.len kernMask d s.crossStream (fmt0Kerning s.pairs) with
-      | .error e => .error e
-      | .ok (p, f) =>
-        let b := { b with pos := p, attach := b.attach || f }
+      let b := if reverse then b.reverse else b
+      if s.stateMachine then
+        let b := sm s b
         .ok (seen, if reverse then b.reverse else b)
+      else
+        match machineKern b.infos b.pos b.len kernMask d s.crossStream (fmt0Kerning s.pairs) with
+        | .error e => .error e
+        | .ok (p, f) =>
+          let b := { b with pos := p, attach := b.attach || f }
+          .ok (seen, if reverse then b.reverse else b)
 
 /-- src: kerning.rs::hb_ot_layout_kern (the face has a `kern` table with these subtables) -/
 def kernDriver (subs : List KSub) (requested : Bool) (kernMask : Nat) (d : Dir)
